@@ -39,6 +39,8 @@ def stepSt (p : Dec) (st : MState) (b : Bid) (mm : Int) : MState :=
       { pay := ((st.byBidder b.bidder).map (·.pay)).getD 0 + Dec.truncInt (Dec.ceil (Dec.mulInt p mm)),
         matched := ((st.byBidder b.bidder).map (·.matched)).getD 0 + mm } }
 
+-- the proof names every spelling of a fact; which ones are used depends on the shape of the generated loop body
+set_option linter.unusedSimpArgs false in
 theorem loop3_cons (p : Dec) (S : Int) (b : Bid) (bs : List Bid) (rem : Acc → Option Int) (m : Bool)
     (st : MState) (q r : Int) (hq : bidQty b p = some q) (hr : rem b.bidder = some r) :
     Match.loop3 p S (b :: bs) rem m st =
@@ -51,10 +53,8 @@ theorem loop3_cons (p : Dec) (S : Int) (b : Bid) (bs : List Bid) (rem : Acc → 
   · cases hq
   all_goals
     have hq' := Option.some.inj hq
-    simp only [hr, Option.getD_some, mapSet_mapSet, reduceCtorEq, decide_false, decide_true, if_true, if_false,
-      Bool.false_eq_true, Go.bidCoin_amt, stepSt, hq']
     cases hb : st.byBidder b.bidder <;> by_cases h1 : st.total + min q r > S <;> by_cases h2 : min q r > 0 <;>
-      simp [h1, h2]
+      simp [hty, hr, hb, hq', h1, h2, stepSt, mapSet_mapSet, Go.bidCoin_amt]
 
 theorem matchStep_eq' (p : Dec) (S : Int) (b : Bid) (rem : Acc → Option Int) (st : MState) (q r : Int)
     (hq : bidQty b p = some q) (hr : rem b.bidder = some r) :
@@ -231,6 +231,22 @@ theorem takeWhile_levels (p : Dec) (byPrice : Dec → Option (List Bid)) (q : De
     have := hlevel q List.mem_cons_self b hb
     grind
 
+set_option linter.unusedSimpArgs false in
+/-- one step of the loop over price levels, whatever way the price guard is spelled -/
+theorem loop2_cons (byPrice : Dec → Option (List Bid)) (p : Dec) (S : Int) (q : Dec) (qs : List Dec)
+    (rem : Acc → Option Int) (m : Bool) (st : MState) :
+    Match.loop2 byPrice p S (q :: qs) rem m st =
+      if q < p then Loop.done (rem, m, st)
+      else match Match.loop3 p S ((byPrice q).getD []) rem m st with
+        | Loop.ret r => Loop.ret r
+        | Loop.done (rem', m', st') => Match.loop2 byPrice p S qs rem' m' st' := by
+  rw [Match.loop2]
+  have hge : (q ≥ p) = ¬ q < p := by simp [Int.not_lt]
+  by_cases hq : q < p
+  · simp [hq, hge]
+  · simp [hq, hge]
+    cases Match.loop3 p S ((byPrice q).getD []) rem m st <;> rfl
+
 theorem tie_Match_levels (p : Dec) (S : Int) (byPrice : Dec → Option (List Bid)) (prices : List Dec)
     (rem : Acc → Option Int) (m : Bool) (st : MState)
     (hlevel : ∀ q ∈ prices, ∀ b ∈ (byPrice q).getD [], b.price = q)
@@ -248,11 +264,11 @@ theorem tie_Match_levels (p : Dec) (S : Int) (byPrice : Dec → Option (List Bid
     simp only [List.flatMap_nil, List.takeWhile_nil, matchLoop, Match.loop2]
     exact ⟨rem, st, by simp [accOf], rfl⟩
   | cons q qs ih =>
-    rw [takeWhile_levels p byPrice q qs hlevel hdesc, Match.loop2]
+    rw [takeWhile_levels p byPrice q qs hlevel hdesc, loop2_cons]
     by_cases hq : q < p
-    · simp only [hq, if_true, decide_true, matchLoop]
+    · simp only [hq, if_true, matchLoop]
       exact ⟨rem, st, by simp [accOf], rfl⟩
-    · simp only [hq, if_false, decide_false, Bool.false_eq_true]
+    · simp only [hq, if_false]
       rw [matchLoop_append]
       simp only [List.flatMap_cons, List.mem_append] at hty hal
       have hl := tie_Match_level p S ((byPrice q).getD []) rem m st (fun b hb => hty b (Or.inl hb))
